@@ -23,9 +23,9 @@ Definition section_info (s : secdoc) : res secinfo :=
   let b := s_body s in
   let st := choose_strategy b in
   do ms <- match st with
-           | SDefault => row_metadata (s_widths s) (s_frame s) rem cw None None
-           | SPageBy => row_metadata (s_widths s) (s_frame s) rem cw (b_page_by b) None
-           | SSubline => row_metadata (s_widths s) (s_frame s) rem cw (b_page_by b) (b_subline_by b)
+           | SDefault => row_metadata (s_widths s) (a_font pattrs) (a_size pattrs) (s_frame s) rem cw None None
+           | SPageBy => row_metadata (s_widths s) (a_font pattrs) (a_size pattrs) (s_frame s) rem cw (b_page_by b) None
+           | SSubline => row_metadata (s_widths s) (a_font pattrs) (a_size pattrs) (s_frame s) rem cw (b_page_by b) (b_subline_by b)
            end;
   Ok {| si_sec := s; si_pf := pf; si_pattrs := pattrs; si_removed := rem; si_cw := cw; si_metas := ms;
         si_avail := Z.max 1 (p_nrow (s_page s) - additional_rows s);
@@ -704,4 +704,70 @@ Definition check_c05 (d : doc) (pd : pdoc) : nat :=
         then 0 else 6
       else 0
   | _ => 0
+  end.
+
+(* ---- C03 ---- *)
+Definition is_heading r := match r with RHeading => true | _ => false end.
+Definition is_subheading r := match r with RSubHeading => true | _ => false end.
+Definition is_footrow r := match r with RFootRow => true | _ => false end.
+Definition is_srcrow r := match r with RSrcRow => true | _ => false end.
+
+Definition zsum (l : list Z) : Z := fold_right Z.add 0%Z l.
+Definition zpos (z : Z) : Z := Z.max 0 z.
+
+Record c03_page := {
+  c3_total : Z;       (* what the page really holds, data rows weighted by the independent lower bound *)
+  c3_ndata : nat;
+  c3_d_hdr : Z;       (* rendered header rows minus reserved header rows *)
+  c3_d_head : Z;      (* rendered group heading rows minus budgeted heading rows *)
+  c3_d_data : Z;      (* sum over rows of (independent line bound - budgeted data lines) *)
+  c3_d_fs : Z         (* rendered footnote/source table rows minus reserved *)
+}.
+
+Definition c03_of_page (d : doc) (f : frame) (b : body) (si : secinfo) (lb : list Z) (p : list item) : c03_page :=
+  let roles := map (classify (f_cols f)) p in
+  let tags := map fst (data_rows p) in
+  let n_hdr := Z.of_nat (count_role is_header roles) in
+  let n_head := Z.of_nat (count_role is_heading roles) in
+  let n_sub := Z.of_nat (count_role is_subheading roles) in
+  let n_fs := Z.of_nat (count_role is_footrow roles + count_role is_srcrow roles) in
+  let lbs := map (fun t => nth t lb 1%Z) tags in
+  let metas := map (fun t => nth t (si_metas si) {| rm_data := 1; rm_pb := 0; rm_sl := 0; rm_total := 1; rm_gs := false; rm_ss := false |}) tags in
+  let reserved_hdr := match d_headers d with
+                      | HFlat l => count_b header_has_text l
+                      | HNested l => count_b header_has_text (concat l)
+                      | HNone => 0%Z end in
+  let reserved_fs := ((match d_footnote d with Some t => if truthy_s (tt_text t) then 1 else 0 | None => 0 end)
+                      + (match d_source d with Some t => if truthy_s (tt_text t) then 1 else 0 | None => 0 end))%Z in
+  {| c3_total := (n_hdr + n_head + n_sub + zsum lbs + n_fs)%Z;
+     c3_ndata := length tags;
+     c3_d_hdr := (n_hdr - reserved_hdr)%Z;
+     c3_d_head := (n_head - zsum (map rm_pb metas))%Z;
+     c3_d_data := (zsum lbs - zsum (map rm_data metas))%Z;
+     c3_d_fs := (n_fs - reserved_fs)%Z |}.
+
+(* per page: 0 within budget (or single data row); otherwise a cause mask of the known accounting gaps
+   that explain the whole excess: 1 = auto header not reserved, 2 = heading rows, 4 = cell font/size;
+   100 = overflow NOT explained by them *)
+Definition c03_page_code (nrow : Z) (c : c03_page) : nat :=
+  if (c3_total c <=? nrow)%Z || Nat.leb (c3_ndata c) 1 then 0
+  else
+    let explained := (zpos (c3_d_hdr c) + zpos (c3_d_head c) + zpos (c3_d_data c))%Z in
+    if (c3_total c - explained <=? nrow)%Z then
+      (if (0 <? c3_d_hdr c)%Z then 1 else 0) + (if (0 <? c3_d_head c)%Z then 2 else 0)
+      + (if (0 <? c3_d_data c)%Z then 4 else 0)
+    else 100.
+
+Definition check_c03 (d : doc) (pd : pdoc) (lb : list Z) : nat * list nat :=
+  match d_content d with
+  | CSingle f b =>
+    match section_info (single_secdoc d f b) with
+    | Err _ => (9, [])
+    | Ok si =>
+      if negb (nat_list_eqb (concat (page_tags pd)) (seq 0 (length (f_rows f)))) then (8, [])
+      else
+        let codes := map (fun p => c03_page_code (p_nrow (d_page d)) (c03_of_page d f b si lb p)) (observed_pages pd) in
+        (fold_left Nat.max codes 0, codes)
+    end
+  | _ => (0, [])
   end.
